@@ -23,7 +23,7 @@ ASSUMPTIONS = ['every helper gets a fresh base dir (re-using one base dir for he
                'global_vars/placeholders are not used here (the helpers have no global_vars argument)']
 BUDGET = {'quick': 60, 'thorough': 1200}
 FEAT = {'global_vars': False, 'contexts': True, 'chain_objects': True, 'objects': True, 'patterns': False}
-ARBITRARY = [None, 0, '', [], {}, False, {'nested': [1, {'k': None}]}, 'text', 3.5, '__callable__', '__class__', [None]]
+ARBITRARY = [None, 0, '', [], {}, False, {'nested': [1, {'k': None}]}, 'text', 3.5, '__callable__', '__class__', [None], '__identity__', '__lock__']
 
 
 def run_one(rng, res: CaseResult):
